@@ -162,7 +162,7 @@ def check_property(prop, tier, seed):
             fn = (d.info or {}).get("fn") or ""
             if fn.startswith("vacuity_"):
                 continue
-            if prop in d.props():
+            if prop in d.props() or not d.props():
                 failed.append(d)
             else:
                 other_failed += 1
